@@ -171,7 +171,7 @@ static void obb_aabb()
     vf_assume(h[d] >= 0);
     vf_assume((u[d] <= h[d]) & (u[d] >= -h[d]));
   }
-  Eigen::Matrix<double, D, D> R = rotation<D>(false);
+  Eigen::Matrix<double, D, D> R = rotation<D>(true);     // the property speaks of proper rotations
   OrientedBoundingBox<double, D> box(c, h, R);
   AxisAlignedBoundingBox<double, D> outer = box.toAxisAlignedBoundingBox();
   V p = c + R * u;
